@@ -56,6 +56,100 @@ def case_project(fam, rep):
     return fn
 
 
+def case_flags(fam, rep):
+    """The average / mean / dV flags of project, extrapolate and topoints, with tensor shapes that are not square."""
+    def fn(run):
+        import felupe as fem
+        rng = rng_for(run.seed, "C19", "flags", fam, rep)
+        geo = "affine" if fam.startswith(("tri", "tet")) else ["distorted", "affine"][rep % 2]
+        mesh, _ = gen.build_mesh(fam, geo, rng)
+        reg = gen.make_region(fam, mesh)
+        nq, nc, npc = reg.quadrature.npoints, mesh.ncells, mesh.cells.shape[1]
+        w = reg.quadrature.weights
+        mon = "post.flags"
+        for shape in ((), (2, 3), (3,)):
+            nodal, vq = fe_function(rng, reg, mesh, fam, shape)
+            percell = nodal[mesh.cells]  # (c, a, *shape)
+            linear = fam in ("quad", "hexahedron")
+            # --- average=False: values per cell corner on the disconnected mesh (no averaging across cells)
+            if linear:
+                got = fem.tools.extrapolate(vq, reg, average=False).reshape(nc, npc, *shape)
+                run.compare(mon, "tool=extrapolate template=%s clause=average=False" % fam, maxabs(got - percell) / maxabs(nodal), 1e-11,
+                            "extrapolate(average=False) does not return the field's values at the corners of every cell", unit="flags:extrapolate:average=False",
+                            config=(fam, "extrapolate", "average=False", shape))
+            if fam not in ("triangle", "tetra"):
+                got = fem.project(vq, reg, average=False).reshape(nc, npc, *shape)
+                run.compare(mon, "tool=project template=%s clause=average=False" % fam, maxabs(got - percell) / maxabs(nodal), 1e-10,
+                            "project(average=False) does not return the field's values at the points of every cell", unit="flags:project:average=False",
+                            config=(fam, "project", "average=False", shape))
+            data = rng.standard_normal((*shape, nq, nc))
+            if nq >= npc:
+                got = fem.topoints(data, reg, average=False).reshape(nc, npc, *shape)
+                ref = np.moveaxis(np.moveaxis(data[..., :npc, :], -1, 0), -1, 1)
+                run.compare(mon, "tool=topoints template=%s clause=average=False" % fam, maxabs(got - ref), 1e-14,
+                            "topoints(average=False) does not move the quadrature-point values to the cell's points", unit="flags:topoints:average=False",
+                            config=(fam, "topoints", "average=False", shape))
+            # --- mean=True: quadrature-weighted cell means, averaged over the attached cells
+            cm = np.moveaxis((data * w.reshape(-1, 1)).sum(-2) / w.sum(), -1, 0)  # (c, *shape)
+            ref = np.zeros((mesh.npoints, *shape))
+            cnt = np.zeros(mesh.npoints)
+            for c in range(nc):
+                for pnt in mesh.cells[c]:
+                    ref[pnt] += cm[c]
+                    cnt[pnt] += 1
+            ref /= cnt.reshape(-1, *([1] * len(shape)))
+            for name, fnc in (("extrapolate", fem.tools.extrapolate), ("project", fem.project), ("topoints", fem.topoints)):
+                got = fnc(data, reg, mean=True)
+                run.compare(mon, "tool=%s template=%s clause=mean=True" % (name, fam), maxabs(got.reshape(ref.shape) - ref), 1e-13,
+                            "%s(mean=True) is not the mean over the attached cells of the weighted cell means" % name, unit="flags:%s:mean=True" % name,
+                            config=(fam, name, "mean=True", shape))
+                got = fnc(data, reg, mean=True, average=False).reshape(nc, npc, *shape)
+                run.compare(mon, "tool=%s template=%s clause=mean=True,average=False" % (name, fam), maxabs(got - cm[:, None]), 1e-13,
+                            "%s(mean=True, average=False) is not the weighted cell mean at every point of the cell" % name,
+                            unit="flags:%s:mean=True,average=False" % name, config=(fam, name, "mean+noaverage", shape))
+            # --- an explicit dV: the projection that preserves the integral with that measure
+            if fam not in ("triangle", "tetra"):
+                dVw = reg.dV * rng.uniform(0.5, 2, reg.dV.shape)
+                pr = fem.project(data, reg, dV=dVw)
+                size = int(np.prod(shape)) if shape else 1
+                back = fem.Field(reg, dim=size, values=pr.reshape(mesh.npoints, size)).interpolate().reshape(data.shape)
+                i0, i1 = (data * dVw).sum((-2, -1)), (back * dVw).sum((-2, -1))
+                run.compare(mon, "tool=project template=%s clause=dV-argument" % fam, maxabs(i1 - i0) / float((np.abs(data) * dVw).sum()), 1e-11,
+                            "project(dV=w) does not preserve the integral with respect to the given measure", unit="flags:project:dV", config=(fam, "project", "dV", shape))
+        # --- linear simplex regions: the one-point default rule is upgraded (documented), a second-order rule is used as is
+        if fam in ("triangle", "tetra"):
+            Q2 = (fem.TriangleQuadrature if fam == "triangle" else fem.TetrahedronQuadrature)(order=2)
+            r2 = gen.make_region(fam, mesh, quadrature=Q2)
+            for shape in ((), (2, 3)):
+                nodal, vq2 = fe_function(rng, r2, mesh, fam, shape)
+                got = fem.project(vq2, r2)
+                run.compare(mon, "tool=project template=%s clause=second-order-rule" % fam, maxabs(got.reshape(nodal.shape) - nodal) / maxabs(nodal), 1e-10,
+                            "project() on a linear simplex region with a second-order rule does not reproduce the FE function", unit="flags:project:simplex",
+                            config=(fam, "project", "order2", shape))
+                # cell-constant data on the default one-point rule: projected field has the same integral
+                data1 = rng.standard_normal((*shape, 1, nc))
+                pr = fem.project(data1, reg)
+                size = int(np.prod(shape)) if shape else 1
+                back = fem.Field(r2, dim=size, values=pr.reshape(mesh.npoints, size)).interpolate().reshape(*shape, Q2.npoints, nc)
+                i0 = (data1 * reg.dV).sum((-2, -1))
+                i1 = (back * r2.dV).sum((-2, -1))
+                run.compare(mon, "tool=project template=%s clause=one-point-rule-upgrade" % fam, maxabs(i1 - i0) / float((np.abs(data1) * reg.dV).sum()), 1e-11,
+                            "project() of cell-constant data on the default one-point rule does not preserve the integral", unit="flags:project:simplex",
+                            config=(fam, "project", "one-point", shape))
+                tp = fem.topoints(data1, reg)
+                cm1 = np.moveaxis(data1[..., 0, :], -1, 0)
+                ref = np.zeros((mesh.npoints, *shape))
+                cnt = np.zeros(mesh.npoints)
+                for c in range(nc):
+                    for pnt in mesh.cells[c]:
+                        ref[pnt] += cm1[c]
+                        cnt[pnt] += 1
+                ref /= cnt.reshape(-1, *([1] * len(shape)))
+                run.compare(mon, "tool=topoints template=%s clause=single-quadrature-point" % fam, maxabs(tp.reshape(ref.shape) - ref), 1e-13,
+                            "topoints() of one value per cell is not the mean over the attached cells", unit="flags:topoints:single-point", config=(fam, "topoints", "single", shape))
+    return fn
+
+
 def case_extrapolate(fam, rep):
     def fn(run):
         import felupe as fem
@@ -157,6 +251,36 @@ def case_stress_and_views(kind, fam, rep):
             run.compare("post.stress", "item=%s clause=%s-after-state-change" % (lab, first), maxabs(got - ref2) / maxabs(ref2), 1e-13,
                         "%s_stress(field) evaluated first after the field changed is not P F^T%s of that field" % (first, " / det F" if first == "cauchy" else ""),
                         unit="stress:%s:after-state-change" % first, config=(lab, kind, first, "after-state-change"))
+        # ---- the evaluators without a field argument report the state of the last assembly (as after a Newton step)
+        field[0].values[:] = gen.random_displacement(rng, mesh, grad=float(rng.uniform(0.1, 0.3)))
+        F3 = field.extract()[0]
+        J3 = np.linalg.det(np.moveaxis(F3, (0, 1), (-2, -1)))
+        if J3.min() >= 0.2:
+            solid.assemble.vector(field)
+            if ni:
+                solid.assemble.vector(field)
+            P3 = np.array(solid.results.stress[0], copy=True)
+            tau3 = np.einsum("ik...,jk...->ij...", P3, F3)
+            run.compare("post.stress", "item=%s clause=kirchhoff-without-field" % lab, maxabs(solid.evaluate.kirchhoff_stress() - tau3) / maxabs(tau3), 1e-13,
+                        "kirchhoff_stress() after an assembly is not P F^T of the assembled state", unit="stress:no-field-argument", config=(lab, kind, "no-field"))
+            if P3.shape[0] == 3:
+                run.compare("post.stress", "item=%s clause=cauchy-without-field" % lab, maxabs(solid.evaluate.cauchy_stress() - tau3 / J3) / maxabs(tau3 / J3), 1e-13,
+                            "cauchy_stress() after an assembly is not P F^T / det F of the assembled state", unit="stress:no-field-argument")
+            if not ni and P3.shape[0] == 3:
+                # view of the first Piola-Kirchhoff stress (stress_type=None): cell means of P itself
+                try:
+                    cdP = np.asarray(solid.view(stress_type=None).mesh.cell_data["Stress"])
+                except Exception as exc:
+                    run.skip("post.view", "ViewSolid(stress_type=None) not available: " + type(exc).__name__)
+                else:
+                    Pm = P3.mean(-2)
+                    if cdP.shape[1] == 9:
+                        refP = np.moveaxis(Pm, -1, 0).reshape(mesh.ncells, 9)
+                    else:
+                        refP = np.array([Pm[i, j] for i, j in VOIGT]).T
+                    run.compare("post.view", "view=solid key=Stress clause=cell-mean", maxabs(cdP - refP) / maxabs(refP), 1e-12,
+                                "view cell data 'Stress' (stress_type=None) is not the quadrature mean of the first Piola-Kirchhoff stress",
+                                unit="view:Stress[first Piola-Kirchhoff]", config=(lab, kind, "view-P"))
         field[0].values[:] = vals0
         solid.evaluate.gradient(field)
         # ---- view data (what is handed to pyvista)
@@ -260,12 +384,18 @@ def cases(tier, seed):
             out.append(("views:%s:%s:%d" % (kind, fam, rep), case_stress_and_views(kind, fam, rep)))
     for rep in range(reps):
         out.append(("force:%d" % rep, case_force_moment(rep)))
+    for fam in ("quad", "hexahedron", "quad9", "hexahedron20", "triangle", "tetra"):
+        for rep in range(reps):
+            out.append(("flags:%s:%d" % (fam, rep), case_flags(fam, rep)))
     return out
 
 
 SPEC = {
     "required_units": ["project:reproduction:quad", "project:reproduction:hexahedron", "project:reproduction:tetra10", "project:integral:quad9",
                        "project:reproduction:tetraMINI", "extrapolate:quad", "extrapolate:hexahedron", "topoints:average", "topoints:mean",
+                       "flags:extrapolate:average=False", "flags:extrapolate:mean=True", "flags:extrapolate:mean=True,average=False", "flags:project:average=False",
+                       "flags:project:dV", "flags:project:mean=True", "flags:project:simplex", "flags:topoints:average=False", "flags:topoints:mean=True",
+                       "flags:topoints:single-point", "stress:no-field-argument", "view:Stress[first Piola-Kirchhoff]",
                        "stress:kirchhoff", "stress:cauchy", "stress:cauchy:after-state-change", "stress:kirchhoff:after-state-change", "view:Deformation Gradient", "view:Logarithmic Strain",
                        "view:Principal Values of Logarithmic Strain", "view:Displacement", "view:Cauchy Stress", "view:Kirchhoff Stress",
                        "view:Principal Values of Cauchy Stress", "view:Equivalent of Cauchy Stress", "job:Deformation Gradient",
